@@ -47,6 +47,49 @@ def hetero_stacks(rnd, tier):
     return progs
 
 
+def multidim_applies(rnd, tier):
+    """C03: every pair / triple of dimensions of every template reduced in ONE
+    call - with one reducer name for all of them, and with min/max
+    interleaved - directly and after a mask() step (unequal numbers of valid
+    cells per lane)."""
+    import itertools
+    dims = {'T1': ['t', 'y', 'x'], 'T2': ['t', 'z', 'x'],
+            'T3': ['y', 't', 'x'], 'T4': ['t', 'z', 'y', 'x'],
+            'T5': ['time', 'lev']}
+    # thresholds inside the templates' value ranges (about half the cells)
+    THRESH = {'T1': [103, 105, 108, 202], 'T2': [112, 113, 132, 152],
+              'T3': [304, 306, 309, 332], 'T4': [401, 402, 405],
+              'T5': [503, 506, 508]}
+    progs = []
+    for t in sorted(dims):
+        combos = list(itertools.combinations(dims[t], 2)) + \
+            list(itertools.combinations(dims[t], 3))
+        for ds in combos:
+            for red in ('mean', 'min', 'max', 'sum'):
+                for order in (ds, ds[::-1]):
+                    fs = [{'d': d, 'kind': 'reducer', 'f': red}
+                          for d in order]
+                    if len(ds) == 3 and red in ('min', 'max'):
+                        fs[1]['f'] = {'min': 'max', 'max': 'min'}[red]
+                    steps = []
+                    src = 1
+                    if rnd.random() < 0.7:
+                        steps.append({'act': 'mask', 'src': 1, 'others': [],
+                                      'args': {
+                            'p': [{'k': rnd.choice(['greater', 'less']),
+                                   'v': rnd.choice(THRESH[t])}],
+                            'where': {'h': False, 'shape': [], 'bits': []},
+                            'usedims': {'h': False, 'v': []},
+                            'coords': False}})
+                        src = 2
+                    steps.append({'act': 'apply', 'src': src, 'others': [],
+                                  'args': {'funcs': fs}})
+                    progs.append({'templates': [t], 'steps': steps})
+    if tier == 'quick':
+        progs = rnd.sample(progs, min(len(progs), 160))
+    return progs
+
+
 def run(prop, tier, extra=None):
     c = CFG[prop]
     out = Outcome(prop, tier)
@@ -60,6 +103,8 @@ def run(prop, tier, extra=None):
         progs.append(cd.gen_program(rnd, rnd.choice(c['depths']), focus=focus))
     if prop == 'C04':
         progs += hetero_stacks(rnd, tier)
+    if prop == 'C03':
+        progs += multidim_applies(rnd, tier)
     # spec -> code: every program the bounded model emits is replayed
     mcp = cd.mc_programs(out, prop, tier)
     out.cov['programs_emitted_by_tlc'] = len(mcp)
